@@ -122,6 +122,7 @@ def run(run, replay=None):
     pool = [c for c in cases if c['exc'] == '']
     for k, c in enumerate(rng.sample(pool, 8)):
         z = copy.deepcopy(c)
+        z['canary_of'] = z['id']
         z['id'] = 'canary-%d' % k
         if k % 2:
             z['nl'] = [239, 187, 191] + z['nl']
